@@ -196,6 +196,36 @@ def generated_case(ctx, rng, idx):
                           {'model': am.describe(), 'outputs': outs,
                            'step': 'copy / permuted outputs'}, feats)
         return
+    # ---- boundary values of the parameter vector: rate constants and
+    # initial amounts that are exactly zero (a closed transfer route, no
+    # elimination, an empty compartment)
+    xz = np.array(x)
+    michaelis = set('global.' + t['km'] for t in am.trans
+                    if t['kind'] == 'mm')
+    zeroable = [i for i, n_ in enumerate(names) if not (
+        n_.endswith('.size') or n_ in michaelis)]
+    if zeroable:
+        for i in rng.permutation(zeroable)[:int(rng.integers(
+                1, len(zeroable) + 1))]:
+            xz[i] = 0.0
+        try:
+            yz = np.asarray(m.simulate(xz, times))
+            refz = np.real(am.solve(dict(zip(names, xz)), times, outs))
+            ctx.count('zero_valued_parameter_simulations')
+            scz = np.max(np.abs(refz)) + 1e-3
+            if yz.shape != refz.shape or not ctx.close(
+                    yz, refz, rtol=1e-6, scale=scz):
+                ctx.violation('solution_of_the_ivp',
+                              'value_mismatch_with_zero_parameters',
+                              {'chi': yz, 'reference': refz,
+                               'parameters': dict(zip(names, xz)),
+                               'model': am.describe()}, feats)
+                return
+        except Exception as e:      # noqa
+            ctx.violation_exc('simulate_raises', e,
+                              {'model': am.describe(), 'parameters': xz},
+                              feats)
+            return
     # ---- the same call with the numbers in another container / dtype
     form = FM.pick(rng)
     xf, tf = np.array(x), times
